@@ -278,19 +278,18 @@ pub fn run_c04(tier: Tier) -> i32 {
         }
     }
     rep.sections.insert("sessions".into(), json!({"total": n_cases, "with_padding_frames": with_padding, "lines": ls.len()}));
-    if thorough {
-        giant_sizes(&mut rep);
-    }
+    giant_sizes(&mut rep, thorough);
     rep.finish("IX: every scheme line of <=2 (thorough 3) entries over 16 entry forms x stop in {0,1,2,3,9} x draw policy x 10 payload sizes per packet (+ the real first batch, + 'only line 2', + over-long chunks, + server role); each session's recorded wire is parsed by the reference parser; non-trivial = distinct case in which padding frames were actually emitted")
 }
 
 /// sizes >= 2^31 can abort the process on allocation: each case runs in a child process under RLIMIT_AS.
-fn giant_sizes(rep: &mut Report) {
+fn giant_sizes(rep: &mut Report, thorough: bool) {
     let exe = std::env::current_exe().unwrap();
-    for size in ["2147483647", "2147483648", "4294967295", "4294967326"] {
-        for form in ["{s}-{s}", "30-30,{s}-{s}", "c,{s}-{s}"] {
+    let sizes: Vec<&str> = if thorough { vec!["2147483647", "2147483648", "4294967295", "4294967326", "9223372036854775807"] } else { vec!["2147483648", "4294967326"] };
+    for size in sizes {
+        for form in ["{s}-{s}", "30-30,{s}-{s}", "c,{s}-{s}", "{s}-9999999999", "3000000000-{s}", "1-{s}"] {
             let line = form.replace("{s}", size);
-            for payload in [0usize, 30, 500] {
+            for payload in if thorough { vec![0usize, 30, 500] } else { vec![0usize, 30] } {
                 rep.case(Some(&format!("giant {line} {payload}")));
                 let out = std::process::Command::new(&exe)
                     .arg("__padchild")
@@ -402,7 +401,7 @@ fn preamble_check(rep: &mut Report, thorough: bool) {
     let mut ls = lines5(if thorough { 3 } else { 2 });
     ls.push(String::new());
     for line in ls {
-        for draw in [DrawPolicy::Min, DrawPolicy::Max] {
+        for draw in [DrawPolicy::Min, DrawPolicy::Max, DrawPolicy::Alternate] {
             let text = if line.is_empty() { "stop=2\n1=30-30".to_string() } else { format!("stop=2\n0={line}\n1=30-30") };
             let Ok(f) = PaddingFactory::new(text.as_bytes()) else { continue };
             let f = Arc::new(f);
@@ -517,7 +516,7 @@ pub fn run_c05(tier: Tier) -> i32 {
     let mut cases: Vec<PadCase> = vec![];
     for line in &ls {
         for stop in [0u32, 1, 2, 3, 5] {
-            for draw in [DrawPolicy::Min, DrawPolicy::Max, DrawPolicy::MinPlus1] {
+            for draw in [DrawPolicy::Min, DrawPolicy::Max, DrawPolicy::MinPlus1, DrawPolicy::Alternate] {
                 if draw != DrawPolicy::Min && !line.contains("100-400") && !line.contains("400-100") && !line.contains("0-5") {
                     continue;
                 }
